@@ -439,3 +439,80 @@ func (c *Ctx) bulkVsTraversal(pj *simdjson.ParsedJson, doc []byte, max int) {
 		}
 	}
 }
+
+// convJudgeAll: for (up to max) number positions of the current tape, the
+// cross-type accessors Int/Uint/Float judged by exact arithmetic on the value
+// the position's OWN accessor returns: convert exactly when the value lies in
+// the target's range (truncating toward zero), error otherwise.
+func (c *Ctx) convJudgeAll(pj *simdjson.ParsedJson, doc []byte, max int) {
+	pos, err := flatPositions(pj, 5000)
+	if err != nil {
+		return
+	}
+	n := 0
+	two63, two64 := math.Ldexp(1, 63), math.Ldexp(1, 64)
+	for _, p := range pos {
+		if !p.IsValue || n >= max {
+			continue
+		}
+		if p.Tag != simdjson.TagInteger && p.Tag != simdjson.TagUint && p.Tag != simdjson.TagFloat {
+			continue
+		}
+		n++
+		it := iterAt(pj, p.K)
+		iv, e1 := it.Int()
+		uv, e2 := it.Uint()
+		fv, e3 := it.Float()
+		var wantI, wantU, wantF string
+		switch p.Tag {
+		case simdjson.TagInteger:
+			if e1 != nil {
+				continue
+			}
+			wantI = fmt.Sprint(iv)
+			wantU = "ERR"
+			if iv >= 0 {
+				wantU = fmt.Sprint(uint64(iv))
+			}
+			wantF = fmt.Sprintf("%016x", math.Float64bits(float64(iv)))
+		case simdjson.TagUint:
+			if e2 != nil {
+				continue
+			}
+			wantU = fmt.Sprint(uv)
+			wantI = "ERR"
+			if uv <= math.MaxInt64 {
+				wantI = fmt.Sprint(int64(uv))
+			}
+			wantF = fmt.Sprintf("%016x", math.Float64bits(float64(uv)))
+		default:
+			if e3 != nil || math.IsNaN(fv) || math.IsInf(fv, 0) {
+				continue
+			}
+			wantF = fmt.Sprintf("%016x", math.Float64bits(fv))
+			wantI, wantU = "ERR", "ERR"
+			if fv >= -two63 && fv < two63 {
+				wantI = fmt.Sprint(int64(fv))
+			}
+			if fv >= 0 && fv < two64 {
+				wantU = fmt.Sprint(uint64(fv))
+			}
+			if fv == 0 {
+				wantU = "0" // -0.0 included
+			}
+		}
+		show := func(v string, e error) string {
+			if e != nil {
+				return "ERR"
+			}
+			return v
+		}
+		gotI, gotU, gotF := show(fmt.Sprint(iv), e1), show(fmt.Sprint(uv), e2), show(fmt.Sprintf("%016x", math.Float64bits(fv)), e3)
+		c.Ev.Count("conv-judge", []byte(fmt.Sprint(p.K)+string(doc)), true)
+		if gotI != wantI || gotU != wantU || gotF != wantF {
+			c.Violate("conversion", "Int/Uint/Float of a number position: wrong range decision or value (judged by exact arithmetic on the position's own value)", "c12-conv-judge",
+				map[string]interface{}{"doc_text": printable(doc), "position": pathStr(p.Path), "tag": string([]byte{byte(p.Tag)}),
+					"got": fmt.Sprintf("int=%s uint=%s float=%s", gotI, gotU, gotF), "want": fmt.Sprintf("int=%s uint=%s float=%s", wantI, wantU, wantF)})
+		}
+	}
+}
